@@ -114,9 +114,9 @@ S_seq0_cancel == {Cfg_seq0_cancel}
 S_seq0_cancel_heavy == {Cfg_seq0_cancel_heavy}
 S_seq0_cancel_unfixed == {Cfg_seq0_cancel_unfixed}
 S_seq0_cancel_unfixed_heavy == {Cfg_seq0_cancel_unfixed_heavy}
-Set_c02_quick == {Cfg_ts1, Cfg_pool0, Cfg_recursive}
+Set_c02_quick == {Cfg_ts1, Cfg_pool0, Cfg_recursive, Cfg_ts2}
 Set_c02_thorough == {Cfg_ts1, Cfg_pool0, Cfg_recursive, Cfg_ts2, Cfg_heavy, Cfg_nested}
-Set_c04_quick == {Cfg_seq0_cancel, Cfg_seq0_cancel_heavy, Cfg_exc_cancel, Cfg_nested1}
+Set_c04_quick == {Cfg_seq0_cancel, Cfg_seq0_cancel_heavy, Cfg_exc_cancel, Cfg_nested1, Cfg_cts_cancel}
 Set_c04_thorough == {Cfg_seq0_cancel, Cfg_seq0_cancel_heavy, Cfg_exc_cancel, Cfg_nested1, Cfg_cts_cancel, Cfg_nested, Cfg_seq_cancel}
 Set_c04_unfixed == {Cfg_seq0_cancel_unfixed, Cfg_seq0_cancel_unfixed_heavy}
 Set_c05_quick == {Cfg_exc2, Cfg_exc_cancel, Cfg_ts1}
